@@ -875,7 +875,7 @@ func (e *c01env) hashEnvelope(r *mon.Rand, in map[string]any, base string, h cos
 		p.PreimageContentType = mon.Pick[any](r, "text/plain", uint64(50), int64(60), "x")
 	}
 	if r.Bool() {
-		p.Location = mon.Pick(r, "https://example.com/x", "loc")
+		p.Location = mon.Pick(r, "https://example.com/x", "https://example.com/a", "loc", "https://bucket.example/50%off.bin", "s3://my bucket/key", "://", "file:///tmp/x", "urn:uuid:6e8bc430-9c3a-11d9-9669-0800200c9a66", "http://[::1]:80/%zz", "h\u00e9llo://\u65e5\u672c", " leading-space")
 	}
 	var env []byte
 	var err error
